@@ -13,6 +13,34 @@ use std::rc::Rc;
 use std::task::{Context, Poll};
 
 // ---------------------------------------------------------------------------------------------
+// busy-loop detection
+//
+// A future that spins inside one `poll` call (never returning Pending) cannot be interrupted by a
+// single-threaded executor. Every task spawned by this crate bumps a thread-local epoch per poll;
+// the client-side transport counts how often it is polled within one epoch and panics beyond a
+// bound no legitimate poll comes near (a poll handles at most the messages queued at that moment).
+
+thread_local! {
+    static EPOCH: Cell<u64> = const { Cell::new(0) };
+}
+
+pub const BUSY_LOOP_BOUND: u64 = 200_000;
+pub const BUSY_LOOP_MARK: &str = "vapi: transport polled 200000 times within one task poll";
+
+/// Wraps a future so that each poll starts a new epoch.
+pub fn counted<F: std::future::Future>(fut: F) -> impl std::future::Future<Output = F::Output> {
+    let mut fut = Box::pin(fut);
+    std::future::poll_fn(move |cx| {
+        EPOCH.with(|e| e.set(e.get() + 1));
+        fut.as_mut().poll(cx)
+    })
+}
+
+fn epoch() -> u64 {
+    EPOCH.with(|e| e.get())
+}
+
+// ---------------------------------------------------------------------------------------------
 // transports
 
 /// The repository's in-memory transports behind one type.
@@ -102,6 +130,8 @@ pub struct FaultCtl {
     pub flushes: Cell<u64>,
     pub fault_at: Cell<Option<(u64, FaultKind)>>,
     pub fired: Cell<Option<&'static str>>,
+    seen_epoch: Cell<u64>,
+    polls_in_epoch: Cell<u64>,
     /// called once at the moment the fault fires
     pub on_fire: RefCell<Option<Box<dyn FnMut()>>>,
 }
@@ -156,6 +186,18 @@ impl<T: AsyncTransport + Unpin> AsyncTransport for FaultyTransport<T> {
 
     fn receive_poll(self: Pin<&mut Self>, cx: &mut Context) -> Poll<Result<Message, TErr>> {
         let this = self.get_mut();
+        let ep = epoch();
+        if this.ctl.seen_epoch.get() == ep {
+            let n = this.ctl.polls_in_epoch.get() + 1;
+            this.ctl.polls_in_epoch.set(n);
+            if n > BUSY_LOOP_BOUND {
+                this.ctl.polls_in_epoch.set(0);
+                panic!("{}", BUSY_LOOP_MARK);
+            }
+        } else {
+            this.ctl.seen_epoch.set(ep);
+            this.ctl.polls_in_epoch.set(0);
+        }
         if let Some(e) = &this.failed {
             return Poll::Ready(Err(e.clone()));
         }
@@ -286,7 +328,7 @@ impl Net {
     pub fn new(mut sim: Sim) -> Self {
         let broker = Broker::new();
         let handle = broker.handle().clone();
-        let (broker_task, broker_done) = sim.spawn_out("broker", broker.run());
+        let (broker_task, broker_done) = sim.spawn_out("broker", counted(broker.run()));
         Net { sim, broker: handle, broker_task, broker_done, clients: vec![] }
     }
 
@@ -299,7 +341,7 @@ impl Net {
         let mut bh = self.broker.clone();
         let conn_handle: Rc<RefCell<Option<ConnectionHandle>>> = Rc::new(RefCell::new(None));
         let ch = conn_handle.clone();
-        let (conn_task, conn_result) = self.sim.spawn_out(&format!("conn:{}", name), async move {
+        let (conn_task, conn_result) = self.sim.spawn_out(&format!("conn:{}", name), counted(async move {
             match bh.connect(b).await {
                 Ok(conn) => {
                     *ch.borrow_mut() = Some(conn.handle().clone());
@@ -311,11 +353,11 @@ impl Net {
                 }
                 Err(e) => Err(ConnErr::Accept(format!("{:?}", e))),
             }
-        });
+        }));
         let handle: Rc<RefCell<Option<Handle>>> = Rc::new(RefCell::new(None));
         let hs = handle.clone();
         let t = FaultyTransport::new(a, ctl.clone());
-        let (client_task, client_result) = self.sim.spawn_out(&format!("client:{}", name), async move {
+        let (client_task, client_result) = self.sim.spawn_out(&format!("client:{}", name), counted(async move {
             let client = match proto {
                 Proto::V20 => Client::connect(t).await,
                 Proto::V14 => Client::builder(t).connect1().await,
@@ -326,7 +368,7 @@ impl Net {
             };
             *hs.borrow_mut() = Some(client.handle().clone());
             client.run().await.map_err(RunErr::from_run)
-        });
+        }));
         self.clients.push(ClientNet { name, proto, tkind, conn_task, conn_result, conn_handle, client_task, client_result, handle, ctl });
         idx
     }
